@@ -146,9 +146,10 @@ def bc_shape(d, ax):
     return tuple(d[i] for i in range(len(d)) if i != ax)
 
 
-def apply_bc(BC, spec):
+def apply_bc(BC, spec, minimal=False):
     """spec: list per axis of dict(periodic in {'none','lo','hi','both'}, lo=dict(a,b,c), hi=dict(a,b,c)).
-    Coefficients are assigned by slice assignment (the documented way), then periodic flags."""
+    Coefficients are assigned by slice assignment (the documented way), then periodic flags.
+    minimal: only what differs from the current content is touched (a user who changes one thing changes one thing)."""
     for ax, ent in enumerate(spec):
         lo, hi = SIDES[ax]
         for side, sn in (('lo', lo), ('hi', hi)):
@@ -156,7 +157,10 @@ def apply_bc(BC, spec):
                 f = getattr(BC, sn)
                 for k in 'abc':
                     arr = getattr(f, k)
-                    arr[:] = np.array(ent[side][k], dtype=float).reshape(arr.shape)
+                    new = np.array(ent[side][k], dtype=float).reshape(arr.shape)
+                    if minimal and np.array_equal(np.asarray(arr), new):
+                        continue
+                    arr[:] = new
         p = ent.get('periodic', 'none')
         if p in ('lo', 'both'):
             getattr(BC, lo).periodic = True
